@@ -667,3 +667,315 @@ def registry_unit(run, n):
             run.nt(("registry-refusal", i))
     run.compare("reg_ops", reqs, impl, run.model.call_many("reg_ops", reqs))
     run.count("registry_histories", n)
+
+
+# ------------------------------------------------------------------ process-level state (C13/C14: encode and decode
+# consult tables that belong to the PROCESS, not to a call; none of them may change because a value was encoded or
+# bytes were decoded)
+
+_SERIAL = {}
+
+
+def _safe_repr(x):
+    try:
+        return repr(x)[:80]
+    except Exception:       # noqa
+        return "<%s>" % type(x).__name__
+
+
+def cls_label(c):
+    """stable, address-free identity of a class object within this process (keeps the class alive: no id reuse)"""
+    e = _SERIAL.get(id(c))
+    if e is None or e[1] is not c:
+        e = _SERIAL[id(c)] = ("%s#%d" % (getattr(c, "__name__", "?"), len(_SERIAL)), c)
+    return e[0]
+
+
+def _cls_state(c):
+    d = c.__dict__
+    tid = getattr(c, "type_id", None)
+    out = [c.__name__, tid if type(tid) is int else "%s:%s" % (type(tid).__name__, _safe_repr(tid))]
+    if is_enum_cls(c):
+        out.append(sorted((repr(k), n) for k, n in c._value2name.items()))
+        out.append(sorted((n, repr(k)) for n, k in c._name2value.items()))
+        out.append(sorted((n, repr(getattr(getattr(c, n, None), "value", None))) for n in c._name2value))
+    else:
+        out.append(tuple(getattr(c, "_fields", ())))
+        out.append(sorted(getattr(c, "__annotations__", {})))
+        # the class-level default of every field (a decode that wrote through to a class attribute, or filled a shared
+        # mutable default, shows up here)
+        out.append([repr(canon(to_wire(d[f]))) if f in d else None for f in getattr(c, "_fields", ())])
+    return out
+
+
+def _k(t):
+    """a table key / attribute value made safely comparable (a hostile stream may have put ANY object there, e.g. a
+    SerializableEnum member whose == raises against an int)"""
+    return t if type(t) in (int, str, tuple) or t is None else (type(t).__name__, id(t))
+
+
+def table_fingerprint(classes=True):
+    """cheap part of process_state: the id <-> class tables, the counters, the sizes of every process-level container and
+    (classes=True) each class's own type_id / field list / identity of its class-level defaults"""
+    T = S.SerializableType
+    if not classes:
+        return (tuple((_k(t), id(c)) for t, c in T.registry.items()), tuple((_k(n), id(c)) for n, c in T.names.items()),
+                _k(T.next_type_id), tuple((_k(a), _k(b)) for a, b in T.custom_id.items()),
+                tuple((_k(n), id(c)) for n, c in S.SerializableEnumType._enums.items()),
+                _k(S.MAX_BYTES_LENGTH), _k(S.MAX_ARRAY_LENGTH), tuple(_container_sizes()))
+    return (tuple((_k(t), id(c)) for t, c in T.registry.items()),
+            tuple((_k(n), id(c)) for n, c in T.names.items()),
+            _k(T.next_type_id), tuple((_k(a), _k(b)) for a, b in T.custom_id.items()),
+            tuple((_k(n), id(c)) for n, c in S.SerializableEnumType._enums.items()),
+            tuple((_k(getattr(c, "type_id", None)), _k(getattr(c, "_fields", None)),
+                   tuple(id(c.__dict__.get(f)) for f in getattr(c, "_fields", None) or ())) for c in T.registry.values()),
+            S.MAX_BYTES_LENGTH, S.MAX_ARRAY_LENGTH, tuple(_container_sizes()))
+
+
+def _containers():
+    """(label, object) of every dict / list / set held at module level of serializable.py or on its two metaclasses and two base
+    classes — the known tables and anything a later version may add there (caches)"""
+    for owner, ns in (("serializable", vars(S)), ("SerializableType", vars(S.SerializableType)),
+                      ("SerializableEnumType", vars(S.SerializableEnumType)), ("Serializable", vars(S.Serializable)),
+                      ("SerializableEnum", vars(S.SerializableEnum))):
+        for k, v in list(ns.items()):
+            if isinstance(v, (dict, list, set)) and not (k.startswith("__") and k.endswith("__")):
+                yield "%s.%s" % (owner, k), v
+
+
+_KNOWN_CONTAINERS = []
+
+
+def _container_sizes():
+    """sizes of the containers seen by the last full scan (process_state() rescans the namespaces)"""
+    if not _KNOWN_CONTAINERS:
+        _KNOWN_CONTAINERS.extend(_containers())
+    return [(label, len(v)) for label, v in _KNOWN_CONTAINERS]
+
+
+def process_state():
+    """{component: comparable value} of everything process-wide the serializer reads"""
+    T = S.SerializableType
+    st = {
+        "SerializableType.registry": [(_safe_repr(t), cls_label(c)) for t, c in T.registry.items()],
+        "SerializableType.names": [(n, cls_label(c)) for n, c in T.names.items()],
+        "SerializableType.next_type_id": _safe_repr(T.next_type_id),
+        "SerializableType.custom_id": sorted((_safe_repr(a), _safe_repr(b)) for a, b in T.custom_id.items()),
+        "SerializableEnumType._enums": [(n, cls_label(c)) for n, c in S.SerializableEnumType._enums.items()],
+        "serialize_types": [(t.__name__, cls_label(f)) for t, f in S.serialize_types.items()],
+        "deserialize_types": [(t, cls_label(f)) for t, f in S.deserialize_types.items()],
+        "size caps": (S.MAX_BYTES_LENGTH, S.MAX_ARRAY_LENGTH),
+        "Serializable methods": sorted((k, cls_label(v)) for k, v in S.Serializable.__dict__.items() if callable(v) or isinstance(v, (staticmethod, classmethod))),
+        "SerializableEnum methods": sorted((k, cls_label(v)) for k, v in S.SerializableEnum.__dict__.items() if callable(v) or isinstance(v, (staticmethod, classmethod))),
+    }
+    del _KNOWN_CONTAINERS[:]
+    _KNOWN_CONTAINERS.extend(_containers())
+    for label, v in _KNOWN_CONTAINERS:
+        if label not in st and ("container " + label) not in st:
+            try:
+                st["container " + label] = sorted(repr(k)[:80] for k in v) if not isinstance(v, list) else [repr(k)[:80] for k in v][:200]
+            except Exception:       # noqa
+                st["container " + label] = len(v)
+    seen = set()
+    for c in list(T.registry.values()) + list(T.names.values()):
+        if id(c) not in seen:
+            seen.add(id(c))
+            st["class %s" % cls_label(c)] = _cls_state(c)
+    return st
+
+
+def state_diff(a, b):
+    """components of two process_state() snapshots that differ: [[component, before, after]...] (shortened)"""
+    out = []
+    for k in sorted(set(a) | set(b)):
+        if a.get(k) != b.get(k):
+            x, y = a.get(k), b.get(k)
+            if isinstance(x, list) and isinstance(y, list):
+                only_a = [e for e in x if e not in y][:6]
+                only_b = [e for e in y if e not in x][:6]
+                if not only_a and not only_b:
+                    only_a, only_b = ["(same entries, other order)"], [repr(y)[:200]]
+                out.append([k, repr(only_a)[:400], repr(only_b)[:400]])
+            else:
+                out.append([k, repr(x)[:300], repr(y)[:300]])
+    return out
+
+
+class StateGuard:
+    """remember the process-level tables; on exit put them back IN PLACE (same dict objects, same order), whatever the code
+    under test did to them.  .diff() = what changed since entry (list of [component, before, after])."""
+
+    def __enter__(self):
+        T = S.SerializableType
+        self.objs = (T.registry, T.names, T.custom_id, S.SerializableEnumType._enums, S.serialize_types, S.deserialize_types)
+        self.copies = [dict(o) for o in self.objs]
+        self.scalars = (T.next_type_id, S.MAX_BYTES_LENGTH, S.MAX_ARRAY_LENGTH)
+        self.cls = [(c, c.__dict__.get("type_id"), c.__dict__.get("_fields")) for c in T.registry.values()]
+        self.before = process_state()
+        return self
+
+    def diff(self):
+        return state_diff(self.before, process_state())
+
+    def restore(self):
+        T = S.SerializableType
+        T.registry, T.names, T.custom_id, S.SerializableEnumType._enums, S.serialize_types, S.deserialize_types = self.objs
+        for o, c in zip(self.objs, self.copies):
+            if [(_k(a), id(b)) for a, b in o.items()] != [(_k(a), id(b)) for a, b in c.items()]:
+                o.clear()
+                o.update(c)
+        T.next_type_id, S.MAX_BYTES_LENGTH, S.MAX_ARRAY_LENGTH = self.scalars
+        for c, tid, flds in self.cls:
+            if tid is not None and c.__dict__.get("type_id") is not tid:
+                c.type_id = tid
+            if flds is not None and c.__dict__.get("_fields") is not flds:
+                c._fields = flds
+
+    def __exit__(self, *a):
+        self.restore()
+        return False
+
+
+class IdAssignment:
+    """the same classes under ANOTHER type-id assignment — what the tables look like in a process that defined / imported
+    the classes in another order, or in another version of the program (the situation store_persistant / load_persistant
+    exist for).  mapping: current type id -> type id there (injective on the registered ids; ids not mentioned keep
+    theirs).  Inside the block every class carries its id of `there` and SerializableType.registry is the table of
+    `there`; on exit the current assignment is back exactly (same dict object, same order)."""
+
+    def __init__(self, mapping):
+        self.mapping = dict(mapping)
+
+    def __enter__(self):
+        T = S.SerializableType
+        self.items = list(T.registry.items())
+        new = [(self.mapping.get(t, t), c) for t, c in self.items]
+        if len(set(t for t, _ in new)) != len(new):
+            raise ValueError("id assignment is not injective")
+        self.old_ids = [(c, c.type_id) for _, c in self.items]
+        T.registry.clear()
+        for t, c in new:
+            c.type_id = t
+            T.registry[t] = c
+        return self
+
+    def __exit__(self, *a):
+        T = S.SerializableType
+        for c, t in self.old_ids:
+            c.type_id = t
+        T.registry.clear()
+        T.registry.update(self.items)
+        return False
+
+
+def gen_id_assignment(r, used=()):
+    """(kind, mapping) — another injective assignment of the ids 128..65535 to the registered classes.
+    used: type ids the value at hand contains (so that the interesting classes really move)"""
+    T = S.SerializableType
+    ids = list(T.registry)
+    used = [t for t in used if t in T.registry] or ids
+    k = r.choice(["same", "swap-used", "swap-used", "swap-any", "rotate", "permute", "shift", "fresh", "swap-used-unused"])
+    m = {}
+    if k == "swap-used" and len(used) >= 2:
+        a, b = r.sample(used, 2)
+        m = {a: b, b: a}
+    elif k in ("swap-used-unused", "swap-used", "swap-any"):
+        a = r.choice(used if k != "swap-any" else ids)
+        b = r.choice([t for t in ids if t != a])
+        m = {a: b, b: a}
+        k = "swap-any" if k == "swap-any" else "swap-used-unused"
+    elif k == "rotate":
+        s = r.randrange(1, len(ids))
+        m = {t: ids[(i + s) % len(ids)] for i, t in enumerate(ids)}
+    elif k == "permute":
+        p = ids[:]
+        r.shuffle(p)
+        m = dict(zip(ids, p))
+    elif k == "shift":
+        off = r.choice([1, 2, 7, 1000])
+        # every id moves up: ids of `there` partly coincide with OTHER classes' current ids
+        m = {t: t + off for t in ids if t + off <= 65535}
+    elif k == "fresh":
+        pool = r.sample(range(128, 65536), len(ids))
+        m = dict(zip(ids, pool))
+    # make it injective over the whole table (a moved id may land on an unmoved class's id)
+    new = [m.get(t, t) for t in ids]
+    if len(set(new)) != len(new):
+        free = iter(x for x in range(40000, 65536) if x not in set(new) and x not in ids)
+        seen = set()
+        for t in ids:
+            n = m.get(t, t)
+            if n in seen:
+                n = next(free)
+                m[t] = n
+            seen.add(n)
+    return k, m
+
+
+def ids_in(v, acc=None):
+    """type ids of the class instances inside a value"""
+    acc = set() if acc is None else acc
+    t = type(v)
+    if t in (list, tuple, set):
+        for x in v:
+            ids_in(x, acc)
+    elif t is dict:
+        for k, x in v.items():
+            ids_in(k, acc)
+            ids_in(x, acc)
+    elif isinstance(v, Serializable):
+        acc.add(v.type_id)
+        for f in v._fields:
+            ids_in(getattr(v, f), acc)
+    elif isinstance(v, SerializableEnum):
+        acc.add(v.type_id)
+        ids_in(v.value, acc)
+    return acc
+
+
+# ------------------------------------------------------------------ python-level operation count (load independent)
+
+class WorkExceeded(BaseException):
+    pass
+
+
+def count_ops(fn, limit=None):
+    """run fn() under sys.setprofile and count the function-call events: every Python function entered and every C
+    function called from Python code — including __eq__ / __hash__ methods entered from inside a dict / set insertion.
+    The count depends on the code path only, not on the machine's load.  With `limit`, the run is stopped (WorkExceeded
+    raised inside the code under test) as soon as the count passes it.
+    -> (count, exceeded, exception raised by fn or None)"""
+    n = [0]
+
+    if limit is None:
+        def prof(frame, event, arg):
+            if event == "call" or event == "c_call":
+                n[0] += 1
+    else:
+        def prof(frame, event, arg):
+            if event == "call" or event == "c_call":
+                n[0] += 1
+                if n[0] > limit:
+                    sys.setprofile(None)
+                    raise WorkExceeded()
+    exc = None
+    exceeded = False
+    old = sys.getrecursionlimit()
+    sys.setrecursionlimit(max(old, 30000))
+    hook = sys.unraisablehook
+    # (a generator interrupted by WorkExceeded reports it once more through the unraisable hook when it is closed)
+    sys.unraisablehook = lambda u: None if isinstance(u.exc_value, WorkExceeded) else hook(u)
+    sys.setprofile(prof)
+    try:
+        try:
+            fn()
+        except WorkExceeded:
+            exceeded = True
+        except Exception as e:      # noqa
+            exc = e
+    finally:
+        sys.setprofile(None)
+        sys.setrecursionlimit(old)
+        sys.unraisablehook = hook
+    # (the call of sys.setprofile(None) on the way out is itself counted: one event, the same for every run)
+    return n[0], exceeded, exc
